@@ -80,6 +80,8 @@ func (p fileProducer) Apply(dest, mimetype string, result io.Reader) error {
 	if err != nil {
 		return err
 	}
+	// discard the temporary file unless Commit succeeds
+	defer f.Close()
 	if _, err := io.Copy(f, result); err != nil {
 		return err
 	}
